@@ -840,16 +840,7 @@ class Interp:
             if is_conc(a) and is_conc(b): return max(a, b) + 8 if max(a, b) % 8 == 0 or max(a, b) < 8 and False else (max(a, b) + 8) // 8 * 8
             return z3.If(a >= b, a, b) + 8
         raise Unsupported('size_of::<' + ty + '>')
-    def powf(s, ctx, x, w):
-        PW = z3.Function('powf', z3.RealSort(), z3.RealSort(), z3.RealSort())
-        r = PW(x, w)
-        apps = [n for n in ctx.notes if n[0] == 'powf']
-        ctx.add(z3.Implies(x > 0, r > 0)); ctx.add(z3.Implies(x == 0, r == 0)); ctx.add(z3.Implies(x == 1, r == 1)); ctx.add(z3.Implies(w == 1, r == x))
-        ctx.add(z3.Implies(z3.And(x >= 1, w < 1), r <= x)); ctx.add(z3.Implies(z3.And(x >= 1, w > 1), r >= x))
-        for _, x2, w2, r2 in apps:
-            ctx.add(z3.Implies(z3.And(w == w2, w > 0, x < x2, x >= 0), r < r2)); ctx.add(z3.Implies(z3.And(w == w2, w > 0, x2 < x, x2 >= 0), r2 < r))
-        ctx.notes.append(('powf', x, w, r))
-        return r
+    def powf(s, ctx, x, w): return powf_term(ctx, x, w)
 
     # ---------- calls
     def call(s, ctx, func, args, caller, ln=None, frame=None):
@@ -933,6 +924,30 @@ class Interp:
         short = name.split('::')[-1]
         if isinstance(v, (LazyM, OnceM)): v.name = short
         if isinstance(v, LockM): v.name = short; v.inner.name = short
+
+
+def powf_term(ctx, x, w):
+    """x.powf(w): exact (rational approximation of the float result) on concrete arguments, otherwise an uninterpreted
+    function constrained by the facts the scores rely on (sign, fixpoints, strict monotonicity in x for w > 0)"""
+    xs, ws = simp(x), simp(w)
+    if is_z3(xs) and z3.is_rational_value(xs) and is_z3(ws) and z3.is_rational_value(ws):
+        xf = float(xs.numerator_as_long()) / float(xs.denominator_as_long()); wf = float(ws.numerator_as_long()) / float(ws.denominator_as_long())
+        if xf >= 0:
+            from fractions import Fraction
+            fr = Fraction(xf ** wf).limit_denominator(10 ** 12)
+            return z3.RealVal(fr.numerator) / z3.RealVal(fr.denominator)
+    PW = z3.Function('powf', z3.RealSort(), z3.RealSort(), z3.RealSort())
+    r = PW(x, w)
+    key = ('powf', x.get_id() if is_z3(x) else x, w.get_id() if is_z3(w) else w)
+    if any(n[0] == 'powf' and n[4] == key for n in ctx.notes): return r
+    apps = [n for n in ctx.notes if n[0] == 'powf']
+    ctx.add(z3.Implies(x > 0, r > 0)); ctx.add(z3.Implies(x == 0, r == 0)); ctx.add(z3.Implies(x == 1, r == 1)); ctx.add(z3.Implies(w == 1, r == x))
+    ctx.add(z3.Implies(z3.And(x >= 1, w < 1), r <= x)); ctx.add(z3.Implies(z3.And(x >= 1, w > 1), r >= x))
+    ctx.add(z3.Implies(z3.And(x >= 0, x <= 2 ** 21, w > 0, w <= 4), r <= 2 ** 84))      # (2^21)^4
+    for _, x2, w2, r2, _k in apps:
+        ctx.add(z3.Implies(z3.And(w == w2, w > 0, x < x2, x >= 0), r < r2)); ctx.add(z3.Implies(z3.And(w == w2, w > 0, x2 < x, x2 >= 0), r2 < r))
+    ctx.notes.append(('powf', x, w, r, key))
+    return r
 
 
 def _unescape(t):
